@@ -1,4 +1,5 @@
 import MitmVerif.Model.C05
+import MitmVerif.Lemmas.C05_Sub
 import Driver.Proto
 open MitmVerif Driver
 open MitmVerif.C05
@@ -59,8 +60,18 @@ def render (old new : St) : String :=
   let bufd := new.conn.bufs.map fun p => s!"{p.1}*{(p.2.map (·.data.length)).sum}"
   s!"F={joinOr frames} U={joinOr ups} Q={joinOr q} M={joinOr m} O={new.conn.openCount} B={joinOr bufd} X={b01 new.closed}{b01 new.crashed}"
 
+instance (σ : St) (t : Nat) (ev : Ev) : Decidable (Good σ t ev) := by unfold Good; exact inferInstance
+instance (σ : St) (t : Nat) (ev : Ev) : Decidable (Good2 σ t ev) := by unfold Good2; exact inferInstance
+
+/-- the hypotheses of the theorems about reachable states, evaluated on the event the real `HttpStream` handed over
+    (`Good`: head first and once; `Good2`: data / trailers / end of message in order) — the harness expects `G=11` -/
+def hyp (σ : St) (t : Nat) (ev : Ev) : String :=
+  s!" G={b01 (σ.closed || decide (Good σ t ev))}{b01 (σ.closed || decide (Good2 σ t ev))}"
+
 def stepLine (σ : St) (line : String) : St × String :=
-  let go (inp : Input) : St × String := let σ' := σ.step inp; (σ', render σ σ')
+  let go (inp : Input) : St × String :=
+    let σ' := σ.step inp
+    (σ', render σ σ' ++ (match inp with | .client t ev => hyp σ t ev | _ => ""))
   match fields line with
   | ["reset"] => (St.init, "ok")
   | ["c", t, "h", f] => match t.toNat?, parseBool f with
